@@ -4,4 +4,4 @@ W=/tmp/one-repo-$$; git -C /repo worktree prune; git -C /repo worktree add -q --
 trap 'git -C /repo worktree remove --force $W 2>/dev/null; rm -rf $W' EXIT
 d=$1; shift
 git -C $W apply $d || exit 2
-for p in "$@"; do /verif/bin/stunvc check -repo $W -property $p -no-evidence 2>&1 | grep -E "VIOLATION|NOT-VER|UNDECIDED|KNOWN|^property" | cut -c1-${WIDTH:-260}; done
+for p in "$@"; do ${STUNVC:-/verif/bin/stunvc} check -repo $W -property $p -no-evidence 2>&1 | grep -E "VIOLATION|NOT-VER|UNDECIDED|KNOWN|^property" | cut -c1-${WIDTH:-260}; done
